@@ -104,19 +104,22 @@ class Tup(Sort):
 
     def _dt(self):
         if self.name not in _dt_cache:
-            d = z3.Datatype("T%d_%s" % (len(_dt_cache), _mangle(self.name)))
-            d.declare("mk", *[("f%d" % i, e.z3()) for i, e in enumerate(self.elems)])
-            _dt_cache[self.name] = d.create()
-        return _dt_cache[self.name]
+            k = len(_dt_cache)
+            d = z3.Datatype("T%d_%s" % (k, _mangle(self.name)))
+            d.declare("mk%d" % k, *[("t%df%d" % (k, i), e.z3()) for i, e in enumerate(self.elems)])
+            _dt_cache[self.name] = (d.create(), k)
+        return _dt_cache[self.name][0]
 
     def z3(self):
         return self._dt()
 
     def mk(self, *vals):
-        return V(self, self._dt().mk(*[v.t for v in vals]))
+        dt = self._dt()
+        return V(self, getattr(dt, "mk%d" % _dt_cache[self.name][1])(*[v.t for v in vals]))
 
     def get(self, v, i):
-        return V(self.elems[i], getattr(self._dt(), "f%d" % i)(v.t))
+        dt = self._dt()
+        return V(self.elems[i], getattr(dt, "t%df%d" % (_dt_cache[self.name][1], i))(v.t))
 
 
 class Opt(Sort):
@@ -127,26 +130,32 @@ class Opt(Sort):
 
     def _dt(self):
         if self.name not in _dt_cache:
-            d = z3.Datatype("O%d_%s" % (len(_dt_cache), _mangle(self.name)))
-            d.declare("none")
-            d.declare("some", ("val", self.inner.z3()))
-            _dt_cache[self.name] = d.create()
-        return _dt_cache[self.name]
+            k = len(_dt_cache)
+            d = z3.Datatype("O%d_%s" % (k, _mangle(self.name)))
+            d.declare("none%d" % k)
+            d.declare("some%d" % k, ("val%d" % k, self.inner.z3()))
+            _dt_cache[self.name] = (d.create(), k)
+        return _dt_cache[self.name][0]
+
+    def _k(self):
+        self._dt()
+        return _dt_cache[self.name][1]
 
     def z3(self):
         return self._dt()
 
     def none(self):
-        return V(self, self._dt().none)
+        return V(self, getattr(self._dt(), "none%d" % self._k()))
 
     def some(self, v):
-        return V(self, self._dt().some(v.t))
+        v = lift(v, self.inner)
+        return V(self, getattr(self._dt(), "some%d" % self._k())(v.t))
 
     def is_none(self, v):
-        return self._dt().is_none(v.t)
+        return getattr(self._dt(), "is_none%d" % self._k())(v.t)
 
     def val(self, v):
-        return V(self.inner, self._dt().val(v.t))
+        return V(self.inner, getattr(self._dt(), "val%d" % self._k())(v.t))
 
 
 class SetS(Sort):
@@ -170,23 +179,28 @@ class MapS(Sort):
 
     def _dt(self):
         if self.name not in _dt_cache:
-            d = z3.Datatype("M%d_%s" % (len(_dt_cache), _mangle(self.name)))
-            d.declare("mk", ("dom", z3.ArraySort(self.key.z3(), z3.BoolSort())),
-                      ("vals", z3.ArraySort(self.key.z3(), self.val.z3())))
-            _dt_cache[self.name] = d.create()
-        return _dt_cache[self.name]
+            k = len(_dt_cache)
+            d = z3.Datatype("M%d_%s" % (k, _mangle(self.name)))
+            d.declare("mkmap%d" % k, ("dom%d" % k, z3.ArraySort(self.key.z3(), z3.BoolSort())),
+                      ("vals%d" % k, z3.ArraySort(self.key.z3(), self.val.z3())))
+            _dt_cache[self.name] = (d.create(), k)
+        return _dt_cache[self.name][0]
+
+    def _k(self):
+        self._dt()
+        return _dt_cache[self.name][1]
 
     def z3(self):
         return self._dt()
 
     def dom(self, v):
-        return self._dt().dom(v.t)
+        return getattr(self._dt(), "dom%d" % self._k())(v.t)
 
     def vals(self, v):
-        return self._dt().vals(v.t)
+        return getattr(self._dt(), "vals%d" % self._k())(v.t)
 
     def mk(self, dom, vals):
-        return V(self, self._dt().mk(dom, vals))
+        return V(self, getattr(self._dt(), "mkmap%d" % self._k())(dom, vals))
 
     def empty(self):
         return self.mk(z3.K(self.key.z3(), z3.BoolVal(False)),
